@@ -379,6 +379,9 @@ def gen_spec(tape, cfg: dict[str, Any]) -> dict:
                     w_req = True
                 sc.append(("wait", tape.choice(cfg["wait_types"], "wait.type"), w_req, w_to, w_id,
                            tape.chance(50, 100, "wait.ask")))
+            if not sync and cfg.get("p_stall") and tape.chance(cfg["p_stall"], 100, "stall?"):
+                # synchronous (event-loop blocking) work inside the body: time passes, nothing else runs
+                sc.append(("stall", tape.choice(cfg.get("stall_grid", [1, 2]), "stall.d")))
             if tape.chance(cfg["p_nonevent"], 100, "nonevent?"):
                 sc.append(("ret", "nonevent"))
                 scripts[t] = sc
@@ -653,6 +656,10 @@ class EngineWorld:
                     await self.work()
                 elif op == "sleep":
                     await asyncio.sleep(act[1])
+                elif op == "stall":
+                    self.loop.stall(act[1])
+                    self.fault("loop-stall")
+                    self.trace.log("stall", step=s["name"], d=act[1], inv=rec["inv"])
                 elif op == "streamloop":
                     for _ in range(act[1]):
                         self._act(s, ctx, ev, rec, ("stream", 1))
@@ -702,7 +709,7 @@ class EngineWorld:
         try:
             script = s["scripts"].get(ev_desc(ev)) or s["scripts"].get("*") or [("ret", None)]
             for act in script:
-                if act[0] in ("work", "sleep", "wait", "pset", "pstop", "hset", "streamloop"):
+                if act[0] in ("work", "sleep", "wait", "pset", "pstop", "hset", "streamloop", "stall"):
                     continue
                 done, result = self._act(s, ctx, ev, rec, act)
                 if done is not None:
